@@ -49,3 +49,91 @@ def conditions(F, nid, include_noret=False):
         val = (truth if at else (not truth)) != flip
         out.append((lab, val, a))
     return out
+
+
+# ---------------------------------------------------------------------------
+# "runs once for every element": a call site inside a loop over an array
+
+LOOPS = ("ForStmt", "WhileStmt", "DoStmt")
+
+
+def _reaches_any(F, start, targets, avoid=()):
+    seen = set()
+    st = [start]
+    while st:
+        b = st.pop()
+        if b in seen or b in avoid:
+            continue
+        seen.add(b)
+        if b in targets:
+            return True
+        st.extend(s for s in F.blocks[b].succs if s is not None)
+    return False
+
+
+def per_element(F, nid, sites=None, elem=None):
+    """Is call `nid` executed for every element the enclosing loop visits?  Returns
+    (problems, loop head or None).  Walking up the control dependences of the call, every governing
+    condition must be the loop itself, a NULL test of the element (`elem`, default: the call's first
+    argument), an assertion, or a
+    guard whose other edge never reaches such a call again (error exits); and no edge leaves the loop
+    towards the code after the loop except from the loop condition (`break` skips the remaining
+    elements; a `return` out of the loop is an error exit and is judged by the rules on error paths)."""
+    sites = sites or [nid]
+    bid = F.block_of(nid)
+    target_blocks = set(F.block_of(s) for s in sites)
+    if elem is None and F.nodes[nid].get("a"):
+        elem = F.nodes[nid]["a"][0]
+    arg = canon.expr(F, elem) if elem is not None else None
+    heads = [a for a, k in closure(F, bid) if F.blocks[a].tk in LOOPS]
+    head = heads[0] if heads else None
+
+    def in_loop(x):
+        return head is not None and _reaches_any(F, head, {x}) and _reaches_any(F, x, {head})
+    bad = []
+    seen = set()
+    work = [bid]
+    while work:
+        b = work.pop()
+        for a, k in direct(F, b, include_noret=False):
+            if (a, k) in seen:
+                continue
+            seen.add((a, k))
+            A = F.blocks[a]
+            inside = in_loop(a)
+            others = [s for j, s in enumerate(A.succs) if j != k and s is not None]
+            guard = bool(others) and (not any(_reaches_any(F, o, target_blocks) for o in others) or
+                                      all(F.blocks[o].noret for o in others))
+            if guard:
+                if inside:
+                    work.append(a)
+                continue
+            if A.tk in LOOPS:
+                if a == head:
+                    work.append(a)
+                continue
+            if A.tc is None:
+                bad.append("depends on <%s>" % A.tk)
+                continue
+            aj, at = cfg.cond_atom(F, A.tc, True)
+            lab, flip = canon.cond(F, aj)
+            if lab == arg and inside:
+                work.append(a)
+                continue
+            bad.append("depends on [%s]" % lab)
+    if head is not None:
+        H = F.blocks[head]
+        body = set(b for b in F.blocks if in_loop(b))
+        after = [s for s in H.succs if s is not None and s not in body]
+        for u in sorted(body):
+            if u == head:
+                continue
+            for v in F.blocks[u].succs:
+                if v is None or v in body:
+                    continue
+                # leaves the loop: towards the code after the loop (break) or straight to a return?
+                if v in after or any(_reaches_any(F, v, {x}) for x in after if x != F.exit):
+                    if F.blocks[u].noret:
+                        continue
+                    bad.append("an edge from block %d leaves the loop early (break): remaining elements are skipped" % u)
+    return sorted(set(bad)), head
